@@ -66,12 +66,21 @@ structure Entry where
   spec : Spec
 deriving DecidableEq, Repr
 
+/-- `Status.Status` of the latest run as the store returns it (dag/scheduler: StatusNone, StatusRunning,
+    StatusError, StatusCancel, StatusSuccess) -/
+inductive RunLabel | none | running | error | cancel | success
+deriving DecidableEq, Repr
+
 /-- what `Client.GetLatestStatus` answers for a DAG -/
 structure Status where
   err : Bool               -- the call returned an error
-  running : Bool           -- Status == StatusRunning
+  label : RunLabel         -- the latest run's status
   started : Option Nat     -- `util.ParseTime(StartedAt)`: none = error (never run: ""), some 0 = "-"
 deriving DecidableEq, Repr
+
+/-- `latestStatus.Status == StatusRunning` — the ONLY thing `jobImpl.Start` / `Stop` ask of the label:
+    finished, failed, canceled and not-started runs are treated alike -/
+def Status.running (s : Status) : Bool := s.label == .running
 
 def entriesOf (d : Dag) : List Entry :=
   d.starts.map (⟨d.id, .start, ·⟩) ++ d.stops.map (⟨d.id, .stop, ·⟩) ++ d.restarts.map (⟨d.id, .restart, ·⟩)
@@ -101,8 +110,9 @@ deriving DecidableEq, Repr
 def Act.dag : Act → Nat
   | .start d => d | .stop d => d | .restart d => d
 
-/-- `jobImpl.Start`: refuse when the status cannot be read, when running, or when the last start
-    (truncated to the minute) is in or after `j.Next`; an unparsable `StartedAt` skips that guard -/
+/-- `jobImpl.Start`: refuse when the status cannot be read, when running, or — for EVERY other status
+    label (success, error, cancel, none) — when the last start (truncated to the minute) is in or after
+    `j.Next`; an unparsable `StartedAt` skips that guard -/
 def jobStart (dag : Nat) (jnext : Nat) (st : Status) : Option Act :=
   if st.err then none
   else if st.running then none
